@@ -212,3 +212,18 @@ Theorem C03_src_validate_options_is_model : forall opts : list nfopt,
   Struct_Options_Proofs.interp_validate opts = validate_options opts.
 Proof. exact Struct_Options_Proofs.interp_validate_is_model. Qed.
 Print Assumptions C03_src_validate_options_is_model.
+
+(* the order of the mask-building phases of NetworkFilter::parse, read off the source on every run
+   (tools/gen_fragments/c03_parse_phases.py: twelve landmark statements, each exactly once): the
+   order C03_Model.parse is written in — in particular the negated types are removed LAST, after the
+   scheme transform has had its say *)
+Theorem C03_src_parse_phase_order :
+  ParsePhasesGen.phases =
+  [ParsePhasesGen.Ph_validate_options; ParsePhasesGen.Ph_positive_types;
+   ParsePhasesGen.Ph_implicit_network_types; ParsePhasesGen.Ph_default_types;
+   ParsePhasesGen.Ph_left_anchor_bits; ParsePhasesGen.Ph_right_anchor_bit; ParsePhasesGen.Ph_is_regex;
+   ParsePhasesGen.Ph_hostname_split; ParsePhasesGen.Ph_trailing_star; ParsePhasesGen.Ph_leading_star;
+   ParsePhasesGen.Ph_scheme_transform; ParsePhasesGen.Ph_implicit_document;
+   ParsePhasesGen.Ph_negated_types_removed].
+Proof. reflexivity. Qed.
+Print Assumptions C03_src_parse_phase_order.
